@@ -960,6 +960,10 @@ func C02(p *Prog, r *Run) {
 	r.Rule("C02.2", "a species delivers exactly one new organism per unit of its quota", func() { r.babiesPerQuota() })
 	r.Rule("C02.3", "quota redistribution conserves the total", func() { r.conservation() })
 	r.Rule("C02.4", "partition, membership bookkeeping and ageing", func() { r.partitionAndAgeing() })
+	r.Rule("C02.7", "new organisms carry genomes made in this call; the reproduction step fails only on a callee's error or a wrong progeny count", func() {
+		r.c02NewGenomes()
+		r.c02ErrorExits()
+	})
 	r.Rule("C02.6", "the best-species-reproduced flag consulted by the end-of-epoch check is set under `species id == bestSpeciesId` (or keeps a previous true); results of other species never reset it", func() { r.c02BestFlag() })
 	r.Rule("C02.5", "marking for elimination stays inside the organism list for every survival threshold (shared with C09.2): the marking loop is bounded by the length of the list", func() {
 		r.c09AdjustFitness(true)
